@@ -288,20 +288,24 @@ FamIdx(f) == IF f = "srs" THEN 1 ELSE IF f = "dmrs" THEN 2 ELSE 3
 Cov2 == << <<1, 1>>, <<1, -1>>, <<-1, 1>>, <<-1, -1>> >>
 Dot2(a, b) == a[1] * b[1] + a[2] * b[2]
 
-Scenario(f, L, nrx, v) ==
-  LET k     == 5000 + FamIdx(f) * 3001 + L * 17 + nrx * 5 + v * 131
+\* `ov` lets a caller fix what an existing object already determines (RefSession.tla: the estimator
+\* belongs to a user with a given shift, cover code, normalisation, and to a root with a given index):
+\* [has |-> FALSE] or [has |-> TRUE, ct, cover, normalize, asarray, mult, u, kw (0 = seeded)]
+NoOv == [has |-> FALSE]
+ScenarioX(f, L, nrx, v, ov) ==
+  LET k     == 5000 + FamIdx(f) * 3001 + L * 17 + nrx * 5 + v * 131 + (IF ov.has THEN 7 * ov.ct ELSE 0)
       D     == DOf(f)
       W     == L \div D
       tight == v % 2 = 1
-      kw    == 1 + Pick(k, 4, 2)                       \* the target may use kw shift windows
+      kw    == IF ov.has /\ ov.kw > 0 THEN ov.kw ELSE 1 + Pick(k, 4, 2)   \* the target may use kw shift windows
       K     == IF tight THEN kw * W - 1 ELSE Pick(k, 5, kw * W)
-      ct    == Pick(k, 3, D)
+      ct    == IF ov.has THEN ov.ct ELSE Pick(k, 3, D)
       nt    == 1 + Pick(k, 6, Min(3, K + 1))
       d0    == IF tight THEN K ELSE Pick(k, 7, K + 1)
       st    == 1 + Pick(k, 8, Max(1, (K + 1) \div nt))
       tap(t, kk, base) == [d |-> base, v |-> TLCEval([a \in 1..nrx |-> GNonZero(GRnd(kk, 20 + 8 * a + 2 * t, -3, 3))])]
       ttaps == TLCEval([t \in 1..nt |-> tap(t, k, (d0 + (t - 1) * st) % (K + 1))])
-      tcov  == IF f = "occ" THEN Cov2[1 + Pick(k, 9, 4)] ELSE <<>>
+      tcov  == IF f # "occ" THEN <<>> ELSE IF ov.has THEN ov.cover ELSE Cov2[1 + Pick(k, 9, 4)]
       \* boundary scenarios: user 1 sits in the window just above the kept taps with a tap at its delay 0
       \* (position K + 1), user 2 in the last window with a tap at its last delay (position L - 1)
       ni    == IF tight THEN 2 + Pick(k, 10, 2) ELSE Pick(k, 10, 4)
@@ -319,15 +323,17 @@ Scenario(f, L, nrx, v) ==
                         taps |-> TLCEval([t \in 1..Min(2, W) |-> tap(t, k + 700, t - 1)])] >>
                ELSE <<>>
       nzc   == IF L > 24 THEN TablePick(L) ELSE 31
-      asarr == f # "occ" /\ Pick(k, 16, 3) = 0
+      asarr == IF ov.has THEN ov.asarray ELSE f # "occ" /\ Pick(k, 16, 3) = 0
   IN [fam |-> f, size |-> L, den |-> D, nrx |-> nrx, var |-> v,
-      mult |-> IF f = "srs" THEN 1 + Pick(k, 1, 2) ELSE 1,
+      mult |-> IF ov.has THEN ov.mult ELSE IF f = "srs" THEN 1 + Pick(k, 1, 2) ELSE 1,
       asarray |-> asarr,                                   \* hand the estimator a plain array
-      normalize |-> ~asarr /\ Pick(k, 2, 2) = 1,
+      normalize |-> IF ov.has THEN ov.normalize ELSE ~asarr /\ Pick(k, 2, 2) = 1,
       extradim |-> Pick(k, 17, 2) = 1,                     \* OCC: 3-d input or flattened
-      u |-> IF L > 24 THEN 1 + Pick(k, 18, nzc - 1) ELSE Pick(k, 18, 30),
+      u |-> IF ov.has THEN ov.u ELSE IF L > 24 THEN 1 + Pick(k, 18, nzc - 1) ELSE Pick(k, 18, 30),
       keep |-> K, ct |-> ct, cover |-> tcov, taps |-> ttaps,
       others |-> TLCEval([q \in 1..ni |-> intf(q)]) \o same]
+
+Scenario(f, L, nrx, v) == ScenarioX(f, L, nrx, v, NoOv)
 
 \* position (mod L) at which tap delay l of a user on shift cs appears after the target (shift ct)
 \* multiplied by the conjugate of its own sequence and took the IDFT
